@@ -140,7 +140,7 @@ inline OItem genItem(Src &s) {
         case 5: it.kind = O_MNEM; it.s = s.pick(std::vector<std::string>{"OK", "VOLT", "a_1", "0"}); break;
         case 6: { it.kind = O_TEXT; size_t n = s.range(0, 10); for (size_t i = 0; i < n; i++) it.s += s.prob(1, 4) ? '"' : (char) s.range(0x20, 0x7e); break; }
         case 7: { it.kind = O_BLOCK; size_t n = s.range(0, 12); for (size_t i = 0; i < n; i++) it.s += (char) s.range(0, 255); break; }
-        default: { it.kind = O_ARR; it.elem = (int) s.range(0, 7); it.format = (int) s.range(0, 2); size_t n = !s.prob(24, 25) ? s.range(250, 600) : s.range(1, 4);   /* now and then a trace-sized array: more items than an 8-bit counter holds */
+        default: { it.kind = O_ARR; it.elem = (int) s.range(0, 7); it.format = (int) s.range(0, 2); size_t n = s.prob(1, 25) ? s.range(250, 600) : s.range(1, 4);   /* now and then a trace-sized array: more items than an 8-bit counter holds */
                    for (size_t i = 0; i < n; i++) it.arr.push_back(s.range(0, 200)); break; }
     }
     return it;
